@@ -42,7 +42,7 @@ const C2S: [u8; 16] = [0xC2, 0xB3, 0x72, 0x3C, 0xC6, 0xAE, 0xD9, 0xB5, 0x34, 0x3
 /// C09: InnerCrypto::new = RC4 keyed with HMAC-SHA1(direction constant, session key), then exactly one
 /// keystream application over 1024 bytes (drop-1024) before first use.
 #[kani::proof]
-#[kani::unwind(70)]
+#[kani::unwind(42)]
 #[kani::stub(crate::rc4::Rc4::new, rc4h::stub_new)]
 #[kani::stub(crate::rc4::Rc4::apply_keystream, rc4h::stub_apply)]
 fn c09_wiring() {
